@@ -2,6 +2,12 @@
 """seeded/SUMMARY.md from seeded/*/meta.json (written by lib/seedtest.py detect)"""
 import os, json, glob, re
 VERIF = os.path.dirname(os.path.dirname(os.path.abspath(__file__)))
+LATEST = {}
+lp = os.path.join(VERIF, "seeded", "own_property_latest.log")
+if os.path.exists(lp):
+    for line in open(lp):
+        if " | " in line:
+            LATEST[line.split()[0]] = line.split(" | ", 1)[1]
 rows = []
 for mp in sorted(glob.glob(os.path.join(VERIF, "seeded", "*", "meta.json"))):
     m = json.load(open(mp))
@@ -19,11 +25,22 @@ for mp in sorted(glob.glob(os.path.join(VERIF, "seeded", "*", "meta.json"))):
     caught = sorted(p for p, r in det.items() if r["exit"] == 1 and any(l.startswith("VIOLATION") and "no-failing-input-found" not in l for l in r["lines"]))
     noinput = sorted(p for p, r in det.items() if r["exit"] == 1 and p not in caught)
     tgt = m["property"]
-    verdict = "replay" if tgt in caught else ("no-failing-input-found" if tgt in noinput else "not flagged")
+    first = "replay" if tgt in caught else ("no-failing-input-found" if tgt in noinput else ("not flagged" if tgt in det else "-"))
+    # the latest run of the own property's quick check with the patch applied (seeded/own_property_latest.log, one line per change)
+    verdict = first
+    if name in LATEST:
+        l = LATEST[name]
+        verdict = "not flagged" if "VIOLATION" not in l else ("no-failing-input-found" if "no-failing-input-found" in l else "replay")
+        if "KNOWN-FINDING" in l and verdict == "replay":
+            verdict = "replay (next to the KNOWN-FINDING line)"
+    caught = [p for p in caught if p != tgt]
+    noinput = [p for p in noinput if p != tgt]
     rows.append((name, tgt, title[:110], verdict, caught, noinput, m.get("confirmed", {})))
 out = ["# Seeded changes and which checks catch them", "",
        "Every change compiles, passes the existing suite unchanged and fails its own demonstration (`demo.rs`) — confirmed in a scratch worktree",
-       "(`meta.json.confirmed`). Detection = `./check Cxx quick` for all 20 properties with the patch applied to /repo (then undone).",
+       "(`meta.json.confirmed`). Detection = `./check Cxx quick` with the patch applied to /repo (then undone): all 20 properties for the first four",
+       "rounds (the two right-hand columns), the own property for the later ones. The `own property` column is the *latest* run of the own",
+       "property's quick check (after the corrections described in DESIGN.md I.8; `own_property_latest.log`), the logs of all runs are `detect_round*.log`.",
        "`replay` = VIOLATION with a failing input; `nfi` = VIOLATION … no-failing-input-found (a proof obligation or a correspondence broke).", "",
        "| change | what it does | own property | other properties: replay | other properties: nfi |", "|---|---|---|---|---|"]
 for name, tgt, title, verdict, caught, noinput, conf in rows:
@@ -31,7 +48,7 @@ for name, tgt, title, verdict, caught, noinput, conf in rows:
     on = " ".join(p for p in noinput if p != tgt) or "–"
     out.append(f"| {name} | {title} | **{verdict}** | {oc} | {on} |")
 n = len(rows)
-out += ["", f"{n} changes; own property reports a replay for {sum(1 for r in rows if r[3] == 'replay')}, "
+out += ["", f"{n} changes; own property reports a replay for {sum(1 for r in rows if r[3].startswith('replay'))}, "
         f"no-failing-input-found for {sum(1 for r in rows if r[3] == 'no-failing-input-found')}, nothing for {sum(1 for r in rows if r[3] == 'not flagged')}."]
 open(os.path.join(VERIF, "seeded", "SUMMARY.md"), "w").write("\n".join(out) + "\n")
 print("\n".join(out[-3:]))
